@@ -4,7 +4,7 @@ CONSTANTS
   C0 = 2
   Sp0 = 4
   MaxBody = 3
-  Widths = {2}
+  Widths = {2, 3}
   Ks = {3}
   BNs = {FALSE}
   Biases = {TRUE}
